@@ -3,16 +3,19 @@
 # /repo, runs the given checks (quick), reverts. Prints DETECTED/MISSED per check.
 set -u
 patch=$(realpath "$1"); shift
+# VERIF_ROOT: run the checks of another copy of /verif (a snapshot), so that the
+# working copy can be edited while a long run is in progress
+V=${VERIF_ROOT:-/verif}
 cd /repo || exit 2
 if [ -n "$(git status --porcelain)" ]; then echo "/repo not clean" >&2; exit 2; fi
 git apply "$patch" || { echo "patch does not apply: $patch" >&2; exit 2; }
 trap 'cd /repo && git checkout -- . && git clean -fdq' EXIT
-. /verif/env.sh
+. $V/env.sh
 if ! go build ./... 2>/tmp/mut_build.log; then echo "MUTANT-DOES-NOT-BUILD $(basename $patch)"; cat /tmp/mut_build.log | head -5; exit 3; fi
 rc=0
 for id in "$@"; do
   tier=${TIER:-quick}
-  out=$(cd /verif && VERIF_OUT=/tmp/mutrun.$$ ./run.sh "$id" "$tier" 2>&1); code=$?
+  out=$(cd $V && VERIF_OUT=/tmp/mutrun.$$ ./run.sh "$id" "$tier" 2>&1); code=$?
   nv=$(echo "$out" | grep -c '^VIOLATION')
   if [ $code -eq 1 ] && [ $nv -gt 0 ]; then echo "DETECTED $(basename $patch) by $id ($nv violation lines): $(echo "$out" | grep '^VIOLATION' | head -1 | cut -c1-300)";
   else echo "MISSED   $(basename $patch) by $id (exit $code): $(echo "$out" | tail -1 | cut -c1-200)"; rc=1; fi
